@@ -14,6 +14,8 @@ import (
 func init() { register("C02", "other", runC02) }
 
 func runC02(p *Program, r *Report) {
+	engineConsistency(p, r, "C02.E", func(n string) bool { return strings.Contains(n, "") })
+
 	r.Trusted = []string{"go/types + go/ssa", "C11/C12 for URLSanitized and URLSetSanitized", "C01 for the placement of actions in the inferred context", "text/template runs the inserted chain in order"}
 	r.NotDecided = []string{"absence of the javascript scheme in every composed URL in general: only the structural causes (policy class, typed-only sanitizers, memo key, URL-start typestate, rel decision) are decided"}
 	r.Explain = "Code-context invariants written from the statement are checked over the evaluated policy tables (script/style content, on*, style, srcdoc, code-loading URL pairs, URL-valued attributes); the sanitizers of typed-only contexts return only the contents of a value of their type; the comment sanitizer returns the empty constant; URL sanitizers return only typed values or URLSanitized/URLSetSanitized output; the memo key of context-specific template copies covers every context field the sanitizer choice reads; every action in an attribute value marks the value as started; the link rel downgrade requires every token to be URL-compatible."
